@@ -21,4 +21,17 @@ V("fromop-skip-chain", "C01", "pyteal/ir/tealblock.py", "                cast(Te
 V("while-enter-late", "C01", "pyteal/ast/while_.py", "        options.enterLoop()\n\n        condStart, condEnd = self.cond.__teal__(options)", "        condStart, condEnd = self.cond.__teal__(options)\n        options.enterLoop()", "R01.3")
 # behaviour-preserving twins
 V("twin-for-rename-locals", "C01", "pyteal/ast/for_.py", "            block.setNextBlock(stepStart)", "            blk = block\n            blk.setNextBlock(stepStart)", None, "quiet")
-V("twin-if-reorder", "C01", "pyteal/ast/if_.py", "        branchBlock.setTrueBlock(thenStart)\n        condEnd.setNextBlock(branchBlock)", "        condEnd.setNextBlock(branchBlock)\n        branchBlock.setTrueBlock(thenStart)", None, "quiet")
+
+
+# ------------------------------------------------------------------------------- C02
+V("spill-caller-return-type", "C02", "pyteal/compiler/subroutines.py", "                    reentrySubroutineCall.return_type != TealType.none\n", "                    subroutine.return_type != TealType.none\n", "R02.3")
+V("spill-no-abi-output", "C02", "pyteal/compiler/subroutines.py", "                    or reentrySubroutineCall.has_abi_output\n", "", "R02.3")
+V("spill-cover-off-by-one", "C02", "pyteal/compiler/subroutines.py", "                        after.append(TealOp(None, Op.cover, len(slots)))", "                        after.append(TealOp(None, Op.cover, len(slots) - 1))", "R02.3")
+V("spill-restore-not-reversed", "C02", "pyteal/compiler/subroutines.py", "                for slot in slots[::-1]:", "                for slot in slots:", "R02.3")
+V("spill-uncover-distance", "C02", "pyteal/compiler/subroutines.py", "                    stackDistance = len(slots) + numArgs - 1", "                    stackDistance = len(slots) + numArgs", "R02.3")
+V("scratch-prologue-not-reversed", "C02", "pyteal/ast/subroutine.py", "                var.slot.store() for var, _ in arg_var_n_frame_index_pairs[::-1]", "                var.slot.store() for var, _ in arg_var_n_frame_index_pairs", "R02.2")
+V("fp-dig-index-off-by-one", "C02", "pyteal/ast/subroutine.py", "            argument_var = None\n            loaded_var = FrameVar(proto, dig_index).load()", "            argument_var = None\n            loaded_var = FrameVar(proto, dig_index + 1).load()", "R02.2")
+V("proto-returns-ignores-abi", "C02", "pyteal/ast/subroutine.py", "            1\n            if subroutine.has_abi_output\n            else int(subroutine.return_type != TealType.none)", "            int(subroutine.return_type != TealType.none)", "R02.2")
+V("callsub-args-reversed", "C02", "pyteal/ast/subroutine.py", "*[handle_arg(x) for x in self.args])", "*[handle_arg(x) for x in reversed(self.args)])", "R02.1")
+V("recursion-points-direct-only", "C02", "pyteal/compiler/subroutines.py", "            if graph_search(subroutineGraph, callee, subroutine)", "            if callee == subroutine", "R02.4")
+V("twin-spill-rename", "C02", "pyteal/compiler/subroutines.py", "                numArgs = reentrySubroutineCall.argument_count()", "                calleeDef = reentrySubroutineCall\n                numArgs = calleeDef.argument_count()", None, "quiet")
